@@ -594,7 +594,7 @@ func narrowShards(tier string, seed int64) []Shard {
 		return yearShards(tier, seed, 9998, "")
 	}
 	in := map[int]bool{}
-	for _, r := range [][2]int{{1, 30}, {236, 240}, {1580, 1584}, {1644, 1646}, {1899, 1901}, {1928, 1930}, {1959, 1961}, {2015, 2030}, {9996, 9998}} {
+	for _, r := range [][2]int{{1, 30}, {236, 240}, {1574, 1584}, {1644, 1646}, {1899, 1901}, {1928, 1930}, {1959, 1961}, {2015, 2030}, {9996, 9998}} {
 		for y := r[0]; y <= r[1]; y++ {
 			in[y] = true
 		}
